@@ -215,9 +215,12 @@ static Result run_c10(const Case &c) {
         std::vector<const std::vector<uint8_t> *> frs;
         for (int i = 0; i < n; i++) if (i != fi) frs.push_back(&b.s.frags[i]);
         FragSet fs; fs.build(frs, {});
-        set_env(wenv);
+        int recenv = (int)c.get("recenv", wenv);      // the switch at repair time is independent of the one at encode time
+        set_env(recenv);
         ReconOut o = reconstruct(b.in->desc, fs, b.s.fraglen, fi);
         set_env(0);
+        legacy = env_legacy(recenv);
+        r.cls(env_legacy(recenv) == env_legacy(wenv) ? "repair_env_same_variant" : "repair_env_other_variant");
         if (o.rc != 0) {
             if (b.g.backend == ref::B_ISA_V) { r.skipped = true; return r; }
             r.fail("reconstruct failed rc=" + std::to_string(o.rc)); return r;
@@ -277,6 +280,7 @@ static Case gen_c10() {
     c.set("wenv", weighted({4, 1, 1, 3, 1}));
     c.set("renv", weighted({4, 1, 1, 3, 1}));
     c.set("via_reconstruct", coin(1, 3) ? 1 : 0);
+    c.set("recenv", weighted({4, 1, 1, 3, 1}));
     c.set("ckind", weighted({2, 4, 2, 2, 2, 1}));
     c.set("carg", pick(0, 1 << 24));
     c.set("cval", pick(0, 1 << 24));
